@@ -7,9 +7,9 @@ package main
 //             for fresh code, the embedded raw descriptor equals the request's file descriptor.
 
 import (
-	"go/constant"
 	"fmt"
 	"go/ast"
+	"go/constant"
 	"go/token"
 	"go/types"
 	"regexp"
